@@ -174,6 +174,7 @@ type Interp struct {
 	nObl, nDischarged, nCross int
 	loopBoundOverride int
 	inPure bool
+	schedTrace []int
 }
 
 type knownRegion struct {
@@ -247,6 +248,7 @@ func (in *Interp) resetPath(prefix []int) {
 	in.loopBoundOverride = 0
 	in.ghostOn = false
 	in.inPure = false
+	in.schedTrace = nil
 }
 
 func (in *Interp) assumeTerm(c *Term) {
